@@ -57,8 +57,6 @@ def run(M, rec, tier, seed, k, n):
     rng = random.Random(seed * 1000 + k + 300)
     g = G.NetGen(rng)
     sh = W.shapes_cycle()
-    gate = reach.ReachGate(M, ["engines/casadi.py:to_function", "engines/casadi.py:_filter_vars",
-                               "engines/casadi.py:_gather_inputs", "engines/casadi.py:_gather_outputs"]).start()
     try:
         for it in range(110 if tier == "quick" else 700):
             shp, desc, built0 = W.make_net(M, g, next(sh), rng)
@@ -136,13 +134,14 @@ def run(M, rec, tier, seed, k, n):
                     rec.count("sx_mx_pairs")
                     compare(rec, f"SX vs MX compact={compact}", desc, d["SX"], d["MX"], {"desc": desc, "pars": pars})
     finally:
-        rec.extra["reach"] = gate.stop()
+        pass
 
 
 def finish(M, rec, write=True):
     if not rec.violations:
-        for fn, hit in rec.extra.get("reach", {}).items():
-            rec.gate(hit, f"anchor function {fn} never entered")
+        for r_ in rec.extra.get("anchor_reach", []):
+            if r_["file"] == "engines/casadi.py":
+                rec.gate(r_["executed_lines"] > 0, f"anchored code {r_['file']}:{r_['lines']} never executed")
         cf = rec.cover.get("configs", set())
         for st in ("SX", "MX"):
             for c in (0, 1, 2):
